@@ -49,7 +49,7 @@ def run(tier, seed):
                "invariants Good (own answer, at most once) and NoHang")
     if r.violated:
         vd.violation({"what": f"design-level: Ipc.tla violates {r.violated}", "counterexample": r.cex[:8000]})
-    for act in ("CCheck", "CRegister", "CSchedule", "LSend", "LDeliver", "LEof", "LWake", "PRespond", "PCut"):
+    for act in ("CCheck", "CRegister", "CSchedule", "LSend", "LDrained", "LDeliver", "LEof", "LWake", "PRespond", "PCut"):
         if r.coverage.get(act, (0, 0))[1] == 0:
             raise MachineryError(f"vacuity: action {act} never taken")
     rn = run_tlc(mod, write_cfg(d, [1, 2, 3], False, False, "n3.cfg"), workers=16, timeout=3000)
